@@ -137,7 +137,7 @@ Proof.
   apply postN. intros s Hs. destruct (peek_token_runN s Hs) as (o & s' & E & Hi & Hr & _). eauto.
 Qed.
 
-Lemma post_peek_token_case {A} (f : option ptoken -> PM A) (R : pstate -> Prop) :
+Lemma post_peek_token_case {A} (f : option prstoken -> PM A) (R : pstate -> Prop) :
   post CN (fun s => NPinv s /\ ps_cur s = None /\ ps_items s = []) R (f None) ->
   (forall t, post CN (fun s => NPinv s /\ ps_cur s = Some t) R (f (Some t))) ->
   post CN NPinv R (o <- p_peek_token ;; f o).
@@ -247,7 +247,7 @@ Proof.
 Qed.
 
 (* pop with a current token *)
-Lemma post_pop_case {A} t (f : ptoken -> PM A) (R : pstate -> Prop) :
+Lemma post_pop_case {A} t (f : prstoken -> PM A) (R : pstate -> Prop) :
   post CN NPinv R (f t) ->
   post CN (fun s => NPinv s /\ ps_cur s = Some t) R (x <- p_pop ;; f x).
 Proof.
@@ -261,7 +261,7 @@ Proof. apply post_ret_same. apply CN_rel. Qed.
 Lemma ret_weaken_N {A} (P Q : pstate -> Prop) (a : A) : (forall s, P s -> Q s) -> post CN P Q (p_ret a).
 Proof. apply post_ret. apply CN_rel. Qed.
 
-Lemma current_case_N {A} (f : option ptoken -> PM A) (R : pstate -> Prop) :
+Lemma current_case_N {A} (f : option prstoken -> PM A) (R : pstate -> Prop) :
   post CN (fun s => NPinv s /\ ps_cur s = None /\ ps_items s = []) R (f None) ->
   (forall t, post CN (fun s => NPinv s /\ ps_cur s = Some t) R (f (Some t))) ->
   post CN NPinv R (o <- p_current ;; f o).
